@@ -133,7 +133,9 @@ structure DLProv where
 inductive LoadStep where
   | emptyFilename                      -- `if (so_filename.empty()) throw std::invalid_argument`
   | loadLib                            -- `handle = util::load_lib(so_filename)`
-  | versionFn (catches : String)       -- `try { load_func(name + "_version"); check_abi_version(f()); } catch (const catches &) { warn }`
+  | versionFn (catches : String) (checkInsideTry : Bool)
+      -- `try { f = load_func(name + "_version"); [check_abi_version(f());] } catch (const catches &) { warn }`
+      -- followed, when the check is not inside the try block, by `if (f) check_abi_version(f());`
   | loadRegister                       -- `load_func(handle, function_name)`
   | callRegister                       -- `auto r = register_func(user_param)`
   | abiOfResult                        -- `check_abi_version(r.abi_version)`
@@ -484,29 +486,36 @@ def ocpOptional : List String :=
 def ocpAll : List String := ocpRequired ++ ocpOptional
 
 def ocpModelDefault : String → DefaultKind
-  | "get_D" | "eval_h" | "eval_h_N" | "eval_constr" | "eval_grad_constr_prod"
-  | "eval_add_gn_hess_constr" => .null
+  | "get_D" => .throws "get_D"
+  | "eval_h" => .throws "eval_h"
+  | "eval_h_N" => .throws "eval_h_N"
+  | "eval_constr" => .throws "eval_constr"
+  | "eval_grad_constr_prod" => .throws "eval_grad_constr_prod"
+  | "eval_add_gn_hess_constr" => .throws "eval_add_gn_hess_constr"
   | "eval_add_R_prod_masked" => .throws "default_eval_add_R_prod_masked"
   | "eval_add_S_prod_masked" => .throws "default_eval_add_S_prod_masked"
   | _ => .computes
 
-/-- entry `f` absent ⇒ a null function pointer sits in the vtable -/
-def ocpNullDefault (f : String) : Bool := ocpModelDefault f == .null
+/-- outcome of running the *default* of an absent entry without further forwarding -/
+def ocpAbsent (f : String) : Outcome :=
+  match ocpModelDefault f with
+  | .throws m => .notImpl m
+  | .null => .nullCall
+  | _ => .calls []
 
 def resolveOCP (P : String → Bool) (f : String) : Outcome :=
-  let viaN (g : String) : Outcome := if P g then .calls [g] else if ocpNullDefault g then .nullCall else .calls [g]
+  -- `default_X_N` forwards to entry `g` through the vtable
+  let viaN (g : String) : Outcome := if P g then .calls [g] else ocpAbsent g
   if P f then .calls [f] else
   if ocpRequired.contains f then .calls [f] else
   match f with
   | "get_D_N" => viaN "get_D"
   | "eval_add_Q_N" => .calls ["eval_add_Q"]
-  | "eval_add_R_prod_masked" => .notImpl "default_eval_add_R_prod_masked"
-  | "eval_add_S_prod_masked" => .notImpl "default_eval_add_S_prod_masked"
   | "get_R_work_size" | "get_S_work_size" => .calls []
   | "eval_constr_N" => viaN "eval_constr"
   | "eval_grad_constr_prod_N" => viaN "eval_grad_constr_prod"
   | "eval_add_gn_hess_constr_N" => viaN "eval_add_gn_hess_constr"
-  | _ => if ocpNullDefault f then .nullCall else .notImpl ("?" ++ f)
+  | _ => ocpAbsent f
 
 /-- `ControlProblemVTable`'s constructor: which dimension makes which entry mandatory. -/
 def ocpCtorMissing (P : String → Bool) (nc nh nhN : Nat) : Option String :=
@@ -580,14 +589,15 @@ structure LoadSt where
 def loadStep (derives : Bool) (d : PluginDescr) (st : LoadSt) : LoadStep → LoadSt ⊕ LoadError
   | .emptyFilename => if d.emptyPath then .inr .invalidArgument else .inl st
   | .loadLib => if d.libLoads then .inl st else .inr .dlopenFailed
-  | .versionFn catches =>
+  | .versionFn catches inside =>
       match d.versionSym with
       | .missing => if catches == "dynamic_load_error" then .inl { st with warned := true }
                     else .inr .missingSymbol
       | .good => .inl st
       | .mismatch =>
-          -- `check_abi_version` throws `invalid_abi_error`; caught iff it derives from the caught type
-          if catches == "invalid_abi_error" || (catches == "dynamic_load_error" && derives)
+          -- `check_abi_version` throws `invalid_abi_error`; when thrown inside the try block it is
+          -- caught iff it derives from the caught type
+          if inside && (catches == "invalid_abi_error" || (catches == "dynamic_load_error" && derives))
           then .inl { st with warned := true } else .inr .abiMismatch
   | .loadRegister => if d.registerSym then .inl st else .inr .missingSymbol
   | .callRegister => .inl { st with registered := true }
@@ -630,9 +640,5 @@ def PluginDescr.all : List PluginDescr :=
   [VersionSym.missing, .good, .mismatch].flatMap fun v => allBool.flatMap fun c =>
   allBool.flatMap fun e => allBool.flatMap fun x => allBool.map fun h =>
     ⟨a, b, v, c, e, x, h⟩
-
-/-- replace the one known-deviating step of `DLControlProblem`'s constructor (finding F2) -/
-def patchFunctionsNull (steps : List LoadStep) : List LoadStep :=
-  steps.map fun s => if s == .functionsNull "functions" then .functionsNull "r.functions" else s
 
 end Alpaqa.C20
